@@ -496,6 +496,9 @@ class PDPRuinRepairEnv(ImprovementEnvBase):
             visited_time[arange, solution[arange, pre]] = i + 1
             pre = solution[arange, pre]
 
+        # every node must lie on the tour that starts at the depot (no sub-tours)
+        assert (visited_time > 0).all(), "Not a single tour through all nodes"
+
         assert (
             visited_time[:, 1 : graph_size // 2 + 1]
             < visited_time[:, graph_size // 2 + 1 :]
